@@ -11,4 +11,6 @@ cp -r /repo/hta "$D/repo/hta"
 cd "$(dirname "$0")/.."
 set +e
 VERIF_REPO="$D/repo" VERIF_EVIDENCE_DIR="$D/ev" VERIF_REPLAY_DIR="$D/replays" /venv/bin/python -m mc.check "$PROP" --tier "$TIER"
-echo "exit=$?"
+RC=$?
+if [ -n "$KEEP_REPLAYS" ] && [ -d "$D/replays" ]; then mkdir -p "$KEEP_REPLAYS"; cp -r "$D/replays/." "$KEEP_REPLAYS/"; fi
+echo "exit=$RC"
